@@ -1341,14 +1341,15 @@ impl<'a, const C: usize, const R: usize, T: 'a + Copy + std::fmt::Debug> Layout<
         let mut custom = CustomEvent::NoEvent;
         if let Some(released_keys) = self.oneshot.tick_osh() {
             for key in released_keys.iter() {
-                custom.update(self.dequeue(Queued {
+                let released = self.dequeue(Queued {
                     event: Event::Release(key.0, key.1),
                     since: 0,
-                }));
+                });
+                self.update_or_postpone_release(&mut custom, released);
             }
         }
 
-        custom.update(match &mut self.waiting {
+        let from_input = match &mut self.waiting {
             Some(w) => match w.tick_wt(&mut self.queue, &mut self.action_queue) {
                 Some((WaitingAction::Hold, _)) => self.waiting_into_hold(-1),
                 Some((WaitingAction::Tap, pq)) => self.waiting_into_tap(pq, -1),
@@ -1378,9 +1379,50 @@ impl<'a, const C: usize, const R: usize, T: 'a + Copy + std::fmt::Debug> Layout<
                     CustomEvent::NoEvent
                 }
             }
-        });
+        };
+        self.update_or_postpone_release(&mut custom, from_input);
         let custom = self.process_extra_waitings(custom);
         self.process_sequence_custom(custom)
+    }
+    /// Only one custom event can be reported per tick. A release that meets a release which is
+    /// already going to be reported must not be lost, or the mouse button, scrolling etc. that it
+    /// ends stays on forever. It is kept as a state that `process_sequence_custom` reports on a
+    /// later tick.
+    fn update_or_postpone_release(
+        &mut self,
+        custom: &mut CustomEvent<'a, T>,
+        new: CustomEvent<'a, T>,
+    ) {
+        match (&*custom, new) {
+            (CustomEvent::Release(_), CustomEvent::Release(value)) => {
+                let _ = self.states.push(State::SeqCustomActive(value));
+            }
+            (_, new) => custom.update(new),
+        }
+    }
+    /// Removes the states of a released coordinate. See `update_or_postpone_release`: when more
+    /// than one custom action is released, the further ones are reported on later ticks.
+    fn release_coord(
+        &mut self,
+        coord: KCoord,
+        clear_flagged: bool,
+        custom: &mut CustomEvent<'a, T>,
+    ) {
+        let mut release_reported = matches!(custom, CustomEvent::Release(_));
+        for s in self.states.iter_mut() {
+            match *s {
+                State::Custom { value, coord: c } if c == coord => {
+                    if release_reported {
+                        *s = State::SeqCustomActive(value);
+                    }
+                    release_reported = true;
+                }
+                _ => {}
+            }
+        }
+        self.states.retain(|s| {
+            !(clear_flagged && s.clear_on_next_release()) && s.release(coord, custom).is_some()
+        });
     }
     /// Only a limited number of sequences (macros) can run at the same time. Starting one more
     /// stops the oldest one. The keys that the stopped sequence was still going to release, and
@@ -1546,13 +1588,10 @@ impl<'a, const C: usize, const R: usize, T: 'a + Copy + std::fmt::Debug> Layout<
                 let mut custom = CustomEvent::NoEvent;
                 let (do_release, overflow_key) = self.oneshot.handle_release((i, j));
                 if do_release {
-                    self.states.retain(|s| {
-                        !s.clear_on_next_release() && s.release((i, j), &mut custom).is_some()
-                    });
+                    self.release_coord((i, j), true, &mut custom);
                 }
                 if let Some((i2, j2)) = overflow_key {
-                    self.states
-                        .retain(|s| s.release((i2, j2), &mut custom).is_some());
+                    self.release_coord((i2, j2), false, &mut custom);
                 }
                 custom
             }
@@ -1596,10 +1635,18 @@ impl<'a, const C: usize, const R: usize, T: 'a + Copy + std::fmt::Debug> Layout<
         } else {
             self.queue.push_back(event.into())
         } {
+            // This is not a tick, so no custom event can be reported from here. Presses are lost,
+            // as is everything else that does not fit into the queue; a release must not be.
+            let mut custom = CustomEvent::NoEvent;
             for i in -1..(EXTRA_WAITING_LEN as i8) {
-                self.waiting_into_hold(i);
+                let ev = self.waiting_into_hold(i);
+                self.update_or_postpone_release(&mut custom, ev);
             }
-            self.dequeue(overflow);
+            let ev = self.dequeue(overflow);
+            self.update_or_postpone_release(&mut custom, ev);
+            if let CustomEvent::Release(value) = custom {
+                let _ = self.states.push(State::SeqCustomActive(value));
+            }
         }
     }
     /// Resolve coordinate to first non-Trans actions.
